@@ -17,6 +17,8 @@ def main():
     py, xs, lits = seeds.all_seeds()
     o = ("c04",)
     pycommon.b_full(chk, o, 2 if chk.quick else 3, python_only=False, vac=("ok",))
+    ep = seeds.expr_product()
+    pycommon.k0_texts(chk, o, ep + xs, "expression kinds x positions + xonsh forms k=0", wall=150 if chk.quick else 900)
     if chk.quick:
         pycommon.b_holes(chk, o, seeds.sample(chk.rng, py, 40) + seeds.sample(chk.rng, xs, 50), 3, python_only=False, wall=120, vac=("ok",), symbolic_gaps=False)
         pycommon.a_holes(chk, o, seeds.sample(chk.rng, xs, 50) + seeds.sample(chk.rng, py, 20), 3, wall=100, vac=("ok",))
